@@ -22,7 +22,7 @@ if os.path.exists(mp):
         meta = {"raw": open(mp).read()}
 meta["confirmed"] = dict(tests_with_patch=res["tests_with_patch"], demo_with_patch_rc=res["demo_with_patch_rc"], demo_clean_rc=res["demo_clean_rc"],
                          repo_head=subprocess.run("git -C /repo log --format=%h -1", shell=True, capture_output=True, text=True).stdout.strip(),
-                         how="git -C /repo apply patch.diff; pytest (repo baseline command); PYTHONPATH=/repo python demo.py; ./check <id> --tier quick; git -C /repo checkout -- .")
+                         how="scratch copy of /repo's working tree + git apply patch.diff; pytest (repo baseline command) on the copy; PYTHONPATH=<copy> python demo.py; DREYE_VERIF_REPO=<copy> ./check <id> --tier quick; copy deleted; demo re-run against /repo")
 old_checks = meta.get("checks", {}) if os.path.abspath(src) == os.path.abspath(dst) else {}
 meta["checks"] = dict(old_checks, **{k[6:]: v for k, v in res.items() if k.startswith("check_")})
 meta["detected_by"] = [k for k, v in meta["checks"].items() if v["rc"] == 1 and v["violations"] > 0]
